@@ -74,6 +74,16 @@ def run(ctx) -> None:
             n = rng.choice([1, 2, 3, 5, 8, 8, 40])
             nstreams = rng.choice([1, 2, 2, 3, 5])
             sids = rng.sample(IDS, nstreams)
+            wide = None
+            if it % 25 == 7:
+                # wide store: the number of collected results sits around 32 / 64
+                wide = rng.choice([31, 32, 33, 34, 63, 64, 65, 66])
+                sids = [f"s{k:02d}" for k in range((wide + 2) // 3)]
+                nstreams = len(sids)
+            axis_named = it % 25 == 13
+            if axis_named:
+                sids = [*sids[:2], rng.choice(["z", "lat", "lon"])]  # a QC'd stream may be named like an axis column
+                nstreams = len(sids)
             tb = P.Table(n, streams=sids, with_z=rng.random() < 0.7, with_pos=rng.random() < 0.7,
                          secs=None if rng.random() < 0.5 else c05.gen_irregular(rng, n))
             lay = P.window_layouts(tb)
@@ -93,10 +103,18 @@ def run(ctx) -> None:
                 mask = tb.rows_in(w)
                 for s in sids:
                     tests = [("qartod", "vf_probe_test", {"tag": ci + 1})]
-                    if rng.random() < 0.6:
-                        tests.append(("qartod", "gross_range_test", {"fail_span": [1001, 3006], "suspect_span": [1002, 3004]}))
-                    if rng.random() < 0.3:
-                        tests.append(("axds", "valid_range_test", {"valid_span": [1001, 3004]}))
+                    if wide is not None:
+                        k_ = sids.index(s)
+                        want_n = 3 if (k_ + 1) * 3 <= wide else wide - k_ * 3
+                        if want_n >= 2:
+                            tests.append(("qartod", "gross_range_test", {"fail_span": [1001, 99006], "suspect_span": [1002, 99004]}))
+                        if want_n >= 3:
+                            tests.append(("axds", "valid_range_test", {"valid_span": [1001, 99004]}))
+                    else:
+                        if rng.random() < 0.6:
+                            tests.append(("qartod", "gross_range_test", {"fail_span": [1001, 3006], "suspect_span": [1002, 3004]}))
+                        if rng.random() < 0.3:
+                            tests.append(("axds", "valid_range_test", {"valid_span": [1001, 3004]}))
                     sd[s] = tests
                     for m, t, kw in tests:
                         fl = c05.direct(m, t, kw, tb, mask, s)
@@ -104,7 +122,9 @@ def run(ctx) -> None:
                         for pos, f in zip(np.flatnonzero(mask), fl):
                             e[pos] = f
                 contexts.append({"window": w, "streams": sd})
-            fe = rng.choice(["pandas", "numpy-dict"])
+            fe = rng.choice(["pandas", "numpy-dict"]) if not axis_named else "numpy-dict"
+            if wide is not None:
+                wins, contexts_w = wins[:1], None
             cfg = Config(P.build_config(contexts))
             if fe == "pandas":
                 st = PandasStream(P.to_frame(tb))
@@ -121,11 +141,17 @@ def run(ctx) -> None:
             pool = [*sids, "vf_probe_test", "gross_range_test", "valid_range_test", q.gross_range_test,
                     q.vf_probe_test, "nomatch", q.spike_test]
             fkind = rng.choice(["none", "none", "include", "exclude", "both", "empty-include", "empty-exclude"])
+            if wide is not None:
+                fkind = "none"
             include = exclude = None
             if fkind in ("include", "both"):
                 include = rng.sample(pool, rng.randrange(1, 4))
             if fkind in ("exclude", "both"):
                 exclude = rng.sample(pool, rng.randrange(1, 4))
+            if include is not None and rng.random() < 0.3:
+                include = tuple(include)
+            if exclude is not None and rng.random() < 0.3:
+                exclude = tuple(exclude)
             if fkind == "empty-include":
                 include = []
             if fkind == "empty-exclude":
@@ -134,7 +160,9 @@ def run(ctx) -> None:
                   "write_data": write_data, "write_axes": write_axes,
                   "include": None if include is None else [getattr(x, "__name__", x) + ("()" if callable(x) else "") for x in include],
                   "exclude": None if exclude is None else [getattr(x, "__name__", x) + ("()" if callable(x) else "") for x in exclude]}
-            do_agg = fkind == "none" and rng.random() < 0.6
+            do_agg = fkind == "none" and (rng.random() < 0.6 or wide is not None)
+            if wide is not None:
+                ctx.count("c19.wide_store_saves")
             try:
                 store = PandasStore(st.run(cfg))
                 if do_agg:
@@ -185,7 +213,37 @@ def run(ctx) -> None:
                     ctx.violation("C19:result-column-values", {**w2, "column": cand[0], "expected": e, "observed": got})
             axis_names = {"time": tb.with_time, "z": tb.with_z, "lat": tb.with_pos, "lon": tb.with_pos}
             any_cover = any(any(v is not None for v in e) for e in exp.values())
+            def col_equals(name, src, is_time=False):
+                vals = df[name].to_numpy()
+                for r in range(n):
+                    v = vals[r]
+                    if pd.isna(v):
+                        continue
+                    if not ((np.datetime64(v, "ns") == src[r]) if is_time else float(v) == float(src[r])):
+                        return False
+                return True
+
             for a, have in axis_names.items():
+                if a in sids:
+                    # a stream named like an axis column: the one column of that name is the axis (when axes are
+                    # written and the source has it) or the stream's data (when data are written)
+                    axis_exp = write_axes and have and any_cover
+                    data_exp = write_data and any(passes(k) for k in exp if k[0] == a)
+                    if a in cols and write_axes and df[a].isna().all():
+                        matched.add(a)  # written entirely empty: carries no information (see the plain axis case below)
+                        continue
+                    if a in cols:
+                        matched.add(a)
+                        src_axis = {"time": tb.time, "z": tb.z, "lat": tb.lat, "lon": tb.lon}[a]
+                        ok_axis = (write_axes and have) and col_equals(a, src_axis, a == "time")
+                        ok_data = data_exp and col_equals(a, tb.data[a])
+                        if not (ok_axis or ok_data):
+                            ctx.violation(f"C19:axis-named-stream-column:{a}", {**wb, "columns": cols, "axis_expected": axis_exp,
+                                                                                "data_expected": data_exp})
+                    elif axis_exp or data_exp:
+                        ctx.violation(f"C19:axis-named-stream-column-missing:{a}", {**wb, "columns": cols, "axis_expected": axis_exp,
+                                                                                    "data_expected": data_exp})
+                    continue
                 present = a in cols
                 want = write_axes and have and any_cover
                 if present and not have and write_axes and df[a].isna().all():
@@ -212,6 +270,8 @@ def run(ctx) -> None:
                                                                          "source": core.jsonable(src[r])})
                             break
             for s in sids:
+                if s in axis_names:
+                    continue  # handled above
                 has_pass = any(passes(k) for k in exp if k[0] == s)
                 if s in cols:
                     matched.add(s)
@@ -223,7 +283,7 @@ def run(ctx) -> None:
                             if not pd.isna(vals[r]) and float(vals[r]) != float(tb.data[s][r]):
                                 ctx.violation("C19:data-column-value", {**wb, "stream": s, "row": r})
                                 break
-                elif write_data and has_pass and s not in axis_names:
+                elif write_data and has_pass:
                     ctx.violation("C19:data-column-missing", {**wb, "stream": s, "columns": cols})
             if do_agg:
                 roll = [c for c in cols if c not in matched and c.endswith("rollup")]
